@@ -37,7 +37,7 @@ KNORM = {"gaussian": 1 / math.sqrt(2 * math.pi), "tophat": 0.5, "epanechnikov": 
          "cosine": math.pi / 4}
 COMPACT = {"tophat", "epanechnikov", "linear", "cosine"}
 # tolerances (stated in evidence)
-KTOL = {"row_rel": 1e-9, "row_abs": 1e-12, "perm_rel": 1e-12, "perm_abs": 1e-300, "grid_rel": 1e-12, "cands_rel": 1e-11,
+KTOL = {"row_rel": 1e-9, "row_abs": 1e-12, "perm_rel": 1e-10, "perm_abs": 1e-14, "grid_rel": 1e-12, "cands_rel": 1e-11,
         "transcendental_rel": 1e-14}
 
 INF, NINF = "inf", "-inf"
@@ -186,6 +186,11 @@ def gen_kde(rng):
         test.append(seq)
     if rng.random() < 0.15:
         test.append([rng.choice(far)] * rng.randint(1, 2))       # everything far outside the grid: the row underflows to 0
+    if rng.random() < 0.12:
+        # longer than KernelDensity's leaf_size (40): the tree has inner nodes, whose bounds must not be used to approximate
+        c1, c2 = rng.uniform(-10, 10), rng.uniform(-10, 10)
+        test.append([(round(rng.gauss(c1, 1.5)) if ints else rng.gauss(c1, 0.7) if rng.random() < 0.6 else rng.gauss(c2, 2.0)) * 1.0
+                     for _ in range(rng.randint(60, 130))])
     perms = []
     for s in test:
         p = list(range(len(s)))
